@@ -44,7 +44,20 @@ def execute_task(task: dict) -> dict:
         case = task["case"]
     if task["kind"] == "gen" or "exclude" in task:
         case["exclude"] = list(task.get("exclude") or [])
-    res = mod.run_case(case)
+    res = None
+    if task["kind"] == "gen":
+        # A generated program must stay inside the claimed domain: no constant-only sub-expression
+        # on which the compiler's folders and the run-time arithmetic disagree (C11, not claimed).
+        # An escape is a generator defect, counted as `invalid`, never reported as a violation.
+        from .gen import in_claimed_domain
+
+        lists = [case.get(k) for k in ("stmts",)] + [sub.get("stmts") for sub in (case.get("P"), case.get("Q"))
+                                                     if isinstance(sub, dict)]
+        if any(isinstance(l_, list) and not in_claimed_domain(l_) for l_ in lists):
+            res = {"status": "invalid", "reason": "outside-claimed-domain", "probes": {}, "fired": {},
+                   "ticks": 0, "compared": 0}
+    if res is None:
+        res = mod.run_case(case)
     out["result"] = res
     import hashlib
 
